@@ -37,6 +37,7 @@ import (
 	"github.com/codenotary/immudb/embedded/cache"
 	"github.com/codenotary/immudb/embedded/logger"
 	"github.com/codenotary/immudb/embedded/multierr"
+	"github.com/codenotary/immudb/embedded/simhook"
 	"github.com/prometheus/client_golang/prometheus"
 )
 
@@ -360,6 +361,9 @@ func Open(path string, opts *Options) (*TBtree, error) {
 	if appRemove == nil {
 		appRemove = func(rootPath, subPath string) error {
 			path := filepath.Join(rootPath, subPath)
+			if simhook.Enabled {
+				simhook.IORemoveAll(path)
+			}
 			return os.RemoveAll(path)
 		}
 	}
@@ -521,6 +525,9 @@ func discardSnapshots(path string, snapIDs []uint64, appRemove AppRemoveFunc, lo
 		}
 
 		_ = os.Remove(filepath.Join(path, tsFile))
+		if simhook.Enabled {
+			simhook.IORemove(filepath.Join(path, tsFile))
+		}
 
 		logger.Infof("snapshot with id=%d at '%s' has been discarded, %d", snapID, path)
 	}
@@ -1416,6 +1423,11 @@ func writeTsFile(path, name string, ts uint64) error {
 	}()
 	if err != nil {
 		return err
+	}
+	if simhook.Enabled {
+		var buf [8]byte
+		binary.BigEndian.PutUint64(buf[:], ts)
+		defer simhook.IOReplace(filepath.Join(path, name), buf[:])
 	}
 	return os.Rename(tempFileName, filepath.Join(path, name))
 }
